@@ -234,6 +234,21 @@ def finalEnv (I : Interp V) (p : Prog) (x : Fin p.nin → V) : List V :=
 def run (I : Interp V) (p : Prog) (x : Fin p.nin → V) : Fin p.outs.length → V :=
   fun j => valOf (finalEnv I p x) (p.outs.get j)
 
+/-! ### How the operator calculus presents its results (round 5) -/
+
+/-- how an operator object is PRESENTED: as a `LinearOperator` (or a subclass) or as a plain `Operator` -/
+inductive OpKind where
+  | linear
+  | nonlinear
+deriving DecidableEq, Repr
+
+/-- class of the object returned by `A + B`, `A - B`, `A(B)`, `A @ B` (scico/linop/_linop.py: `_wrap_add_sub`,
+    `LinearOperator.__call__` / `__matmul__`, and the overrides of MatrixOperator, Diagonal, ScaledIdentity, Identity,
+    CircularConvolve, Convolve, ConvolveByX): a LinearOperator only when BOTH operands are LinearOperators -/
+def combineKind : OpKind → OpKind → OpKind
+  | .linear, .linear => .linear
+  | _, _ => .nonlinear
+
 /-! ### Row-finite sparse matrices over an operand list (the concrete array family, `Proofs/JaxprArray.lean`)
 
   `applyDescG T xs i = Σ_{(k, j, c) ∈ T i} c · (operand k) j`.  At `ℂ` this is `Arr.applyDesc`, proved jointly linear
